@@ -26,6 +26,7 @@ static unsigned char tab_in[ABS_MAXAPP][ABS_MAXLEN];
 static size_t tab_len[ABS_MAXAPP];
 static unsigned char tab_out[ABS_MAXAPP][32];
 int abs_napp;
+int abs_oneshot;      /* ghost: number of one-shot tinyjambu_hash() calls */
 
 void abs_H(unsigned char out[32], const unsigned char *in, size_t len)
 {
@@ -91,6 +92,7 @@ void tinyjambu_hash_free(tinyjambu_hash_state_t *state)
 void tinyjambu_hash(unsigned char *out, const unsigned char *in, size_t inlen)
 {
     unsigned char d[32];
+    ++abs_oneshot;
     abs_H(d, in, inlen);
     for (unsigned i = 0; i < 32; ++i) out[i] = d[i];
 }
